@@ -4,6 +4,7 @@ import (
 	"encoding/json"
 	"errors"
 	"fmt"
+	"hash/fnv"
 	"math"
 	"math/big"
 	"math/rand"
@@ -169,7 +170,7 @@ func (st *state) replayTrait(line []byte, f *failer) (bool, string, error) {
 		}
 		return !c.Ok || differ, fmt.Sprint(c.T1, c.T2), nil
 	case "mutate":
-		nt := st.replayMutate(&c, f)
+		nt := st.replayMutate(&c, line, f)
 		return nt, fmt.Sprint(c.T, c.Power2, c.Prob8), nil
 	case "string":
 		t := mkTrait(c.T)
@@ -189,13 +190,17 @@ type learned struct {
 	sign    int
 }
 
-func (st *state) replayMutate(c *traitCase, f *failer) bool {
+func (st *state) replayMutate(c *traitCase, line []byte, f *failer) bool {
+	// the seeds depend on the case itself (not on its position in the file): a recorded case replays with the same draws
+	h := fnv.New32a()
+	_, _ = h.Write(line)
+	caseKey := int64(h.Sum32() % 1_000_000)
 	power := float64(c.Power2) / 2
 	prob := float64(c.Prob8) / 8
 	n := len(c.T.P)
 	sawBoth := false
 	for k := 0; k < st.seeds; k++ {
-		seed := st.base*1_000_003 + int64(st.rep.Cases)*131 + int64(k)
+		seed := st.base*1_000_003 + caseKey*131 + int64(k)
 		// learn the draws
 		rand.Seed(seed)
 		ds := make([]learned, n)
